@@ -547,6 +547,29 @@ func alphabet(double bool) []Op {
 	return append(a, Op{"replace", "absent"}, Op{"delete", "absent"})
 }
 
+
+// FuzzList (thorough tier): coverage-guided fuzzing over edit scripts drawn from the same
+// operation alphabet as the sweep (positions first/middle/last/absent), same run oracle.
+func FuzzList(f *testing.F) {
+	f.Add(true, []byte{0, 1, 1, 4, 7, 2, 3, 9, 12, 5})
+	f.Add(false, []byte{1, 1, 1, 6, 2, 3, 8, 0, 11})
+	f.Fuzz(func(t *testing.T, double bool, data []byte) {
+		if len(data) > 120 {
+			data = data[:120]
+		}
+		a := alphabet(double)
+		c := Case{Double: double}
+		for _, b := range data {
+			c.Ops = append(c.Ops, a[int(b)%len(a)])
+		}
+		if len(c.Ops) == 0 {
+			return
+		}
+		w := core.Probe(func(sig, detail string) { t.Fatalf("VERIF-SIG %s\nVERIF-CASE %s\n%s", sig, core.JSON(c), detail) })
+		run(w, c)
+	})
+}
+
 func TestProp(t *testing.T) {
 	r := core.Start(t, "C19")
 	defer r.Finish()
